@@ -83,7 +83,9 @@ DEFECT_VARIANTS = {
                   # the defective operand is FOLLOWED by a composite operand
                   {'assert': "stdout matches '(' && ( matches a || matches b )",
                    'other': "file r.txt = -contents-of -rel-home exists.txt -transformed-by ( replace '(' x | ( grep a | grep b ) )"}],
-    'wrong_type': ['def text-matcher TM = DEFINED', 'def path WP = -rel DEFINED x', 'def text-transformer WT = DEFINED',
+    # (the class stands for "a defect of a symbol that symbol validation finds": besides wrong types, a symbol defined
+    #  a SECOND time - written out, and by including a second time the file that defines it)
+    'wrong_type': ['def string DEFINED = again', 'including defs.xly', 'def text-matcher TM = DEFINED', 'def path WP = -rel DEFINED x', 'def text-transformer WT = DEFINED',
                    # a wrong type reached indirectly, and not through the first reference of the definition
                    'timeout = @[INDIRECT]@', 'env @[INDIRECT]@ = v'],
 }
@@ -114,7 +116,8 @@ def concretize(c, mark):
             pre = ['def string DEFINED = v', 'def path HOME_PATH = -rel-home sub', 'def path HERE_PATH = -rel-here sub',
                    'def path RESULT_PATH = -rel-result stdout',
                    'def string INDIRECT = @[DEFINED]@-@[HOME_PATH]@', 'def program PGM = % true a',
-                   'def program PGM2 = @ PGM b', "def string BAD_RE = '('", 'def string BAD_INT = 1+']
+                   'def program PGM2 = @ PGM b', "def string BAD_RE = '('", 'def string BAD_INT = 1+',
+                   'including defs.xly']
             lines.append('file created-%s.txt = x' % ph)
         if ph == c['dphase']:
             vs = DEFECT_VARIANTS.get(c['defect'])
@@ -136,7 +139,8 @@ def concretize(c, mark):
     text = ''.join(parts)
     if c['defect'] == 'defined_later':
         text += '[cleanup]\ndef string LATER = v\n'
-    files = {'c.case': text, 'script.sh': 'touch %s/act\n' % mark, 'exists.txt': 'x\n', 'a-directory/in.txt': 'x\n'}
+    files = {'c.case': text, 'script.sh': 'touch %s/act\n' % mark, 'exists.txt': 'x\n', 'a-directory/in.txt': 'x\n',
+             'defs.xly': 'def string FROM_INCLUDED_FILE = v\n'}
     if c['frontend'] == 'symbol':
         argv = ['symbol', 'c.case']
     else:
